@@ -1,6 +1,6 @@
-HOOKS = {'guard': 'LIBPHYSICA_VERIF', 'enable': 'checks lower /repo/src/*.cpp with clang++-14 -DLIBPHYSICA_VERIF (no hook is currently needed: private state is reached with -fno-access-control in the harness TU)',
+HOOKS = {'guard': 'LIBPHYSICA_VERIF', 'enable': 'observation-only hooks; the native replay build (g++ -O2 -DLIBPHYSICA_VERIF -DVERIF_NATIVE, engine/front.py native_so) compiles them in, the symbolic encoding (clang++-14 IR) is generated with the guard off; private state is otherwise reached with -fno-access-control in the harness TUs',
          'baseline_off_cmd': 'cmake -G Ninja -B /repo/_build -S /repo >/dev/null && cmake --build /repo/_build >/dev/null && ctest --test-dir /repo/_build -j8 --timeout 900',
-         'source_commits': [], 'add_only': True}
+         'source_commits': ['cdcc148'], 'add_only': True}
 NOTES = 'Every verdict is bounded (sizes, unrollings, iteration counts stated in evidence/<id>.json coverage.bounds); EA = exact real arithmetic, says nothing about rounding. See DESIGN.md.'
 EA = 'symbolic execution of clang-14 LLVM IR of the real functions (own interpreter, doubles as exact reals) + z3 SMT queries per obligation; counterexamples replayed on the native g++ build'
 CHECKS = {
